@@ -179,6 +179,7 @@ def scenarios():
     yield "invariant added below a SETATTR-only base", {"classes": [{"name": "P", "invs": ["SETATTR"]}, {"name": "S", "bases": ["P"], "invs": ["CALL"]}, {"name": "T", "bases": ["P"], "invs": ["ALL"]}]}
     yield "two bases one unconstrained", {"classes": [{"name": "A1", "methods": {"m": M(pre=1)}}, {"name": "A2", "methods": {"m": M()}}, {"name": "C", "bases": ["A1", "A2"], "methods": {"m": M()}}]}
     yield "two bases one unconstrained, own preconditions", {"classes": [{"name": "A1", "methods": {"m": M(pre=1)}}, {"name": "A2", "methods": {"m": M()}}, {"name": "C", "bases": ["A1", "A2"], "methods": {"m": M(pre=1)}}]}
+    yield "two bases unconstrained first, postcondition on the second", {"classes": [{"name": "E", "methods": {"m": M()}}, {"name": "P", "methods": {"m": M(post=1, snaps=1)}}, {"name": "C", "bases": ["E", "P"], "methods": {"m": M()}}, {"name": "D", "bases": ["P", "E"], "methods": {"m": M(post=1)}}]}
     yield "two bases with preconditions", {"classes": [{"name": "A", "methods": {"m": M(pre=1)}}, {"name": "B", "methods": {"m": M(pre=2)}}, {"name": "C", "bases": ["A", "B"], "methods": {"m": M(pre=1, post=1)}}, {"name": "D", "bases": ["A", "B"], "methods": {"m": M()}}]}
     yield "chain with posts and snapshots", {"classes": [{"name": "A", "methods": {"m": M(pre=1, post=2, snaps=1)}}, {"name": "B", "bases": ["A"], "methods": {"m": M(pre=1, post=1, snaps=1)}}, {"name": "C", "bases": ["B"], "methods": {"m": M(post=1)}}, {"name": "G", "bases": ["B"]}]}
     yield "foreign decorator on an override", {"classes": [{"name": "A", "methods": {"m": M(pre=1, post=1)}}, {"name": "B", "bases": ["A"], "methods": {"m": dict(pre=1, post=1, wraps=True)}}]}
